@@ -293,6 +293,15 @@ class Poll(BasePoller):
             self._read_ctrl()
             return
 
+        if not isinstance(fd, int) and fd.fileno() != fileno:
+            # The object was closed without being discarded and its number
+            # now belongs to another descriptor: this event is not its.
+            self.fire(_disconnect(fd), self.getTarget(fd))
+            self._poller.unregister(fileno)
+            super().discard(fd)
+            del self._map[fileno]
+            return
+
         if event & self._disconnected_flag and not (event & select.POLLIN):
             self.fire(_disconnect(fd), self.getTarget(fd))
             self._poller.unregister(fileno)
